@@ -1,7 +1,7 @@
 SPECIFICATION MCSpec
 CONSTANTS
  Part = "ctl"
- Threads = {1, 2, 3}
+ Threads = {1, 2}
  Impls <- ImplsDXY
  WrapperSubs = "replay"
  Template = FALSE
